@@ -176,6 +176,37 @@ func ruleTruncateBound(c *Ctx, id string) {
 	})
 }
 
+// returnedGlobals: every package-level error the return can carry (looks through a result variable / phi).
+func returnedGlobals(ret *ssa.Return) []string {
+	idx := errResultIndex(ret.Parent().Signature)
+	if idx < 0 {
+		return nil
+	}
+	var out []string
+	seen := map[ssa.Value]bool{}
+	var walk func(v ssa.Value, d int)
+	walk = func(v ssa.Value, d int) {
+		if v == nil || seen[v] || d > 4 {
+			return
+		}
+		seen[v] = true
+		switch x := v.(type) {
+		case *ssa.Phi:
+			for _, e := range x.Edges {
+				walk(e, d+1)
+			}
+		case *ssa.UnOp:
+			if x.Op == token.MUL {
+				if g, ok := x.X.(*ssa.Global); ok {
+					out = append(out, g.Name())
+				}
+			}
+		}
+	}
+	walk(returnedValue(ret, idx), 0)
+	return out
+}
+
 func returnedGlobal(ret *ssa.Return) (string, bool) {
 	idx := errResultIndex(ret.Parent().Signature)
 	if idx < 0 {
